@@ -272,3 +272,45 @@ func ZZ_C16_OctreeClosestSegment() {
 	}
 	zz.Reach("answered")
 }
+
+// closest element among points at sub-unit distances (where a distance and its square order differently): concrete
+// points, one per octant of a unit-scale box, the query point free along one line through the box
+var smallLayouts = [][]vector3.Float64{
+	{vector3.New(0., 0., 0.), vector3.New(0.9, 0., 0.), vector3.New(0., 0.9, 0.), vector3.New(0.9, 0.9, 0.9)},
+	{vector3.New(0.1, 0.1, 0.1), vector3.New(0.7, 0.2, 0.1), vector3.New(0.75, 0.8, 0.6), vector3.New(0.2, 0.6, 0.9), vector3.New(0.45, 0.45, 0.5)},
+}
+
+func ZZ_C16_OctreeClosestPointSmall() {
+	ps := smallLayouts[zz.Choose("layout", zz.Bound("LAYOUTS"))]
+	els := make([]trees.Element, len(ps))
+	for i, p := range ps {
+		els[i] = pt{p}
+	}
+	t := tree(els)
+	tv := zz.Float64("q.t")
+	offs := [][2]float64{{0.3, 0.2}, {0.5, 0.55}, {0.85, 0.1}}
+	o := offs[zz.Choose("q.offset", zz.Bound("OFFSETS"))]
+	var q vector3.Float64
+	switch zz.Choose("q.axis", zz.Bound("AXES")) {
+	case 0:
+		q = vector3.New(tv, o[0], o[1])
+	case 1:
+		q = vector3.New(o[0], tv, o[1])
+	default:
+		q = vector3.New(o[1], o[0], tv)
+	}
+	zz.Reach("built")
+	idx, p := t.ClosestPoint(q)
+	zz.Assert(idx >= 0 && idx < len(ps), "ClosestPoint(small) returns a valid element index")
+	if idx < 0 || idx >= len(ps) {
+		return
+	}
+	zz.AssertNear(p.X(), ps[idx].X(), "ClosestPoint(small): the point belongs to the returned element (x)")
+	zz.AssertNear(p.Y(), ps[idx].Y(), "ClosestPoint(small): the point belongs to the returned element (y)")
+	zz.AssertNear(p.Z(), ps[idx].Z(), "ClosestPoint(small): the point belongs to the returned element (z)")
+	best := d2(ps[idx], q)
+	for j := range ps {
+		zz.Assert(best <= d2(ps[j], q)*(1+1e-9)+1e-12, fmt.Sprintf("ClosestPoint(small): no element is closer than the returned one (n=%d)", len(ps)))
+	}
+	zz.Reach("answered")
+}
